@@ -21,12 +21,14 @@ import JRV.Driver.ClientWire
 import JRV.Driver.ByteBody
 import JRV.Driver.ConfigHistory
 import JRV.Driver.JsonString
+import JRV.Driver.ServerContend
+import JRV.Driver.WireSession
 
 namespace JRV.Driver
 
 def components : List (String × (List String → String)) := [
   ("echo", echo), ("norm", norm), ("truthy", truthyC), ("pyeq", pyeqC), ("cmpint", cmpIntC)
-] ++ clientComponents ++ payloadComponents ++ headersComponents ++ wireComponents ++ configHeapComponents ++ transportComponents ++ serverLifeComponents ++ serverComponents ++ jsonClassComponents ++ endToEndComponents ++ futureComponents ++ poolComponents ++ jsonTextComponents ++ jsonClassExtComponents ++ clientWireComponents ++ byteBodyComponents ++ configHistoryComponents ++ jsonStringComponents
+] ++ clientComponents ++ payloadComponents ++ headersComponents ++ wireComponents ++ configHeapComponents ++ transportComponents ++ serverLifeComponents ++ serverComponents ++ jsonClassComponents ++ endToEndComponents ++ futureComponents ++ poolComponents ++ jsonTextComponents ++ jsonClassExtComponents ++ clientWireComponents ++ byteBodyComponents ++ configHistoryComponents ++ jsonStringComponents ++ serverContendComponents ++ wireSessionComponents
 
 def handle (line : String) : String :=
   match JRV.Codec.tokens line with
